@@ -42,6 +42,8 @@ KINDS = {
     "dangling": [("file", "f.txt", b"file f\n"), ("link", "dang.txt", "nowhere.txt")],
     "cycle": [("file", "f.txt", b"file f\n"), ("link", "c1", "c2"), ("link", "c2", "c1")],
     "html": [("file", "p.html", worlds.HTML)],
+    "latin1-sidecar": [("file", "menu.txt", b"menu\n"), ("file", "menu.txt.abstract", b"caf\xe9 au lait\n")],
+    "latin1-names": [("file", "f.txt", b"file f\n"), ("file", ".names", b"Path=./f.txt\nName=caf\xe9 f\n")],
     "space": [("file", "sp ace/a&b.txt", b"odd names\n")],
 }
 ESCAPES = [("link", "sub/esc.txt", "../../outside.txt"), ("link", "esc2.txt", "../outside.txt"), ("link", "absout.txt", "/../outside.txt")]
